@@ -8,6 +8,20 @@
 #include "romea_core_common/diagnostic/CheckupLowerThan.hpp"
 #include "romea_core_common/diagnostic/CheckupReliability.hpp"
 
+// Ambient state the library must not depend on: format flags left behind on a stream by an EARLIER print in the same thread. The
+// library's toStringInfoValue<T>() is called with this type before every op; with a fresh std::ostringstream per call (the
+// unchanged code) that is invisible, with a stream object reused across calls (seeded change c18d: a thread_local ostringstream
+// whose str("") / clear() reset does not restore the flags) every later value is printed with these flags.
+#include <iomanip>
+#include "romea_core_common/diagnostic/DiagnosticReport.hpp"
+struct AmbientStreamState {};
+inline std::ostream & operator<<(std::ostream & os, const AmbientStreamState &)
+{
+  return os << std::setprecision(3) << std::fixed << std::showpos << 1.5;
+}
+static void perturbAmbientStreamState() { (void)romea::core::toStringInfoValue(AmbientStreamState{}); }
+
+
 using namespace romea::core;
 using vp::Toks;
 
@@ -103,6 +117,7 @@ static void reset()
 static std::string handleSlot(const Toks & t);
 static std::string handle(const Toks & t0)
 {
+  perturbAmbientStreamState();
   if (t0[0].compare(0, 4, "sib.") == 0) {
     Toks t = t0; t[0] = t[0].substr(4);
     if (t[0].compare(0, 4, "chk.") != 0) { throw vp::BadOp(); }
